@@ -138,7 +138,8 @@ UNIT = {
   'Trailer::to_dict': to_dict('Trailer', FILE, TR_KEYS, [
       ('wr_model', 'r matches Ok(d) ==> trailer_written(*self, d@, old(updater).created(), final(updater).created())'),
       ('wr_frame', 'submap(old(updater).created(), final(updater).created())')],
-      extra=[{'rule': 'R1', 'find': 'dict.insert("Info", val2);',
+      extra=[{'rule': 'R1', 'count': '*', 'find': 'dict.insert("Info", val2);',   # '*': a writer that lost the entry must reach the verifier
+             
               'replace': 'proof { assert(submap(old(updater).created(), updater.created())); } dict.insert("Info", val2);'}]),
   # ---- name enum
   'enum Counter': {'kind': 'decl', 'file': X, 'container': TYPES, 'header': r'^pub enum Counter$'},
